@@ -40,6 +40,12 @@ def run(tier, seed):
       self.b = nnx.Param(jnp.asarray(0.5))
       self.stat = nnx.BatchStat(jnp.asarray(3.0))
 
+  class HookedGet(nnx.Module):
+    def __init__(self):
+      self.w = nnx.Param(jnp.asarray([0.7, -1.4, 2.1, -2.8]), on_get_value=lambda var, v: v * 3.0)      # reads are scaled, the stored value is not
+      self.b = nnx.Param(jnp.asarray(0.5))
+      self.stat = nnx.BatchStat(jnp.asarray(3.0))
+
   class Lora(nnx.Module):
     def __init__(self):
       self.w = nnx.Param(jnp.asarray([0.7, -1.4, 2.1, -2.8]))
@@ -52,7 +58,7 @@ def run(tier, seed):
 
   def grads_for(params, step):
     return jax.tree_util.tree_map(lambda p: (p * 0.5 + 0.7) * (step + 1), params)
-  for mname, mk, wrt in (('plain', Plain, nnx.Param), ('hooked', Hooked, nnx.Param), ('lora-subset', Lora, nnx.LoRAParam), ('lora-all', Lora, nnx.Param)):
+  for mname, mk, wrt in (('plain', Plain, nnx.Param), ('hooked', Hooked, nnx.Param), ('hooked-get', HookedGet, nnx.Param), ('lora-subset', Lora, nnx.LoRAParam), ('lora-all', Lora, nnx.Param)):
     for tname, mktx in txs.items():
       cases += 1
       inp = dict(model=mname, optimizer=tname, wrt=wrt.__name__)
@@ -87,7 +93,7 @@ def run(tier, seed):
         break
     if fails:
       break
-  return dict(name=NAME, cases=cases, distinct=cases, bound='4 models (plain, Param with on_set_value hook, wrt=LoRAParam subset, wrt=Param incl. subclass) x 4 optax optimizers (sgd, momentum, adam, clipped adamw with schedule) x 3 steps',
+  return dict(name=NAME, cases=cases, distinct=cases, bound='5 models (plain, Param with on_set_value hook, Param with on_get_value hook, wrt=LoRAParam subset, wrt=Param incl. subclass) x 4 optax optimizers (sgd, momentum, adam, clipped adamw with schedule) x 3 steps',
               failures=fails[:2], error=None)
 
 
